@@ -215,6 +215,12 @@ T.update({
  'C13_j': dict(change='ZA narrows len(id) to uint16 before the too-long test', needs='an id of 65536 bytes or more with len mod 65536 < 8192: accepted with a wrapped ENTL', strengthened='YES: the quick tier enumerated id lengths up to 16384 only (the thorough tier had 70000); both tiers now include 65535, 65536, 65552, 73727 and 131072'),
 })
 
+T.update({
+ 'C01_j': dict(change='SignHashed reduces r + k mod n before the "r + k == n, retry" test, so the test never fires', needs='nonce and digest with x(kG) + e = n - k mod n (2^-256): s = n - r is returned and the library rejects its own signature (r + s = n)', strengthened='no'),
+ 'C16_j': dict(change='fiat sm2Sub: the conditional add-back of p reuses the borrow flag as the carry into limb 1 instead of the carry out of limb 0', needs='arg1 < arg2 with equal low Montgomery limbs (2^-64): result off by 2^64', strengthened='no'),
+ 'C19_j': dict(change='GenerateKey tests the source error against a byte counter that accumulates across rejected candidates', needs='at least one rejected candidate, then a failure 1..31 bytes into a later draw: a key made of stale and new bytes is returned with a nil error', strengthened='no'),
+})
+
 for name, t in sorted(T.items()):
     d = os.path.join(S, name)
     if not os.path.isdir(d):
